@@ -28,7 +28,9 @@ pub fn generate(seed: u64, index: u64, thorough: bool) -> Scenario {
     let model = gen_model(&mut rng, kind, if big { 7 } else if thorough { 5 } else { 4 }, if big { 6 } else { 4 });
     let mp = model.m() + model.nparams;
     // N relative to M+P: -3..+3 around the boundary, or comfortably large
-    let delta: i64 = match rng.below(10) {
+    let delta: i64 = match rng.below(11) {
+        // long data sets (identities must not depend on N being small)
+        10 => rng.usize_in(31, 200) as i64,
         0 => -3,
         1 => -2,
         2 => -1,
